@@ -130,11 +130,53 @@ def translate_location_check():
     if len(rsites) != 1:
         raise Untranslatable(f"expected 1 factory call in StoredFileInfo.file_location, found {len(rsites)}")
     rflag = (not any(rsites)) and guarded
+    # 2da36a1: _finishIngest and ingest_zip refuse datasets the datastore already holds BEFORE anything is transferred
+    iflag = _ingest_checked(tree)
     return {"Gen/TrashGen.v": "(* GENERATED on every run by harness/props/c09.py (translate_location_check) from\n"
                               "   python/lsst/daf/butler/datastores/fileDatastore.py, datastore/stored_file_info.py and _location.py.\n"
                               "   Do not edit, do not commit. *)\n"
                               f"Definition GEN_LOCATION_CHECKED : bool := {'true' if flag else 'false'}.\n"
-                              f"Definition GEN_RECORD_CHECKED : bool := {'true' if rflag else 'false'}.\n"}
+                              f"Definition GEN_RECORD_CHECKED : bool := {'true' if rflag else 'false'}.\n"
+                              f"Definition GEN_INGEST_CHECKED : bool := {'true' if iflag else 'false'}.\n"}
+
+
+def _ingest_checked(tree) -> bool:
+    """fileDatastore.py: `_refuse_datasets_already_stored` consults bridge.check AND the record table and raises; `_finishIngest`
+    calls it before its first `_extractIngestInfo`, `ingest_zip` calls it before its first `transfer_from`.  A missing call =
+    False (the code before 2da36a1); anything else unexpected raises."""
+    fns = {}
+    for cls in ast.walk(tree):
+        if isinstance(cls, ast.ClassDef) and cls.name == "FileDatastore":
+            for f in cls.body:
+                if isinstance(f, ast.FunctionDef):
+                    fns[f.name] = f
+    for need in ("_finishIngest", "ingest_zip"):
+        if need not in fns:
+            raise Untranslatable(f"FileDatastore.{need} not found")
+    guard = fns.get("_refuse_datasets_already_stored")
+    if guard is None:
+        return False
+    body = ast.unparse(guard)
+    if not (any(isinstance(n, ast.Raise) for n in ast.walk(guard)) and "bridge.check" in body
+            and "_get_stored_records_associated_with_refs" in body):
+        return False
+
+    def first_line(fn, attr):
+        lines = [n.lineno for n in ast.walk(fn) if isinstance(n, ast.Call) and isinstance(n.func, ast.Attribute) and n.func.attr == attr]
+        return min(lines) if lines else None
+    ok = True
+    for fname, effect in (("_finishIngest", "_extractIngestInfo"), ("ingest_zip", "transfer_from")):
+        g, e = first_line(fns[fname], "_refuse_datasets_already_stored"), first_line(fns[fname], effect)
+        if e is None:
+            raise Untranslatable(f"{fname}: no call of {effect} found")
+        if g is None or g > e:
+            ok = False
+        else:
+            # the call must be a plain statement of the function body (not under an `if`)
+            if not any(isinstance(st, ast.Expr) and isinstance(st.value, ast.Call) and isinstance(st.value.func, ast.Attribute)
+                       and st.value.func.attr == "_refuse_datasets_already_stored" for st in fns[fname].body):
+                ok = False
+    return ok
 
 
 def _factory_default(ltree, name):
@@ -733,7 +775,7 @@ def correspond(ctx, name, pairs, expect=None):
         if hi in badset:
             continue
         rc, out = ctx.coq_eval(f"{name}_guards{hi}", HDR, expr)
-        tuples = re.findall(r"\((true|false),\s*(true|false),\s*(true|false),\s*(true|false),\s*(true|false),\s*(true|false)\)", out)
+        tuples = re.findall(r"\((true|false),\s*(true|false),\s*(true|false),\s*(true|false),\s*(true|false)\)", out)
         if rc != 0 or not tuples:
             ctx.tie_broken("correspondence", f"{name}-guards", f"could not evaluate the guards: {out[-300:]}")
             continue
